@@ -45,6 +45,28 @@ top-level index wrong for every prefix that does not end in `/` (`C18_dir_row_pr
 `http://h/src/index.html`) – a broken link, not an injection: reported under C03/C18 as an
 observation.
 
+ASSUMPTION (explicit; review 2, item 36): the HTML templates are the ones compiled into the binary
+(src/templates/base.html, index.html, file.html, macros.html – the anchored files). The file named
+by `--output-config-file` may contain a `templates` object (html.rs 72-80 `ConfigFile.templates`,
+100-139 `get_templates`: `result.extend(user_templates)`) whose entries REPLACE any of the four
+templates by the text of a user file. Such a template can pass any value through `| safe`, can be
+registered under a name that does not end in `.html` (Tera then does not auto-escape it), or can
+put a name inside a `<script>` element or an unquoted attribute. No C18 theorem speaks about a run
+with user templates: the sink list above is the list of the built-in templates, and the harness
+passes a configuration file with other LIMITS only (`htmlb.site.config_file_limits`), never with
+templates. Whoever overrides a template takes over its escaping discipline. The JSON / XML
+reports are not affected (no template is involved).
+
+Characters. "Printable" is read widely by the generators: besides ASCII metacharacters and
+precomposed non-ASCII letters, names contain combining marks (U+0300…, Arabic harakat, Hebrew
+points, Thai and Devanagari signs), ZERO WIDTH JOINER sequences, variation selectors (VS15/16,
+VS17), the format characters U+00AD, U+034F, U+061C, U+200B–U+200F, U+202A–U+202E, U+2060,
+U+2066–U+2069, U+FEFF, tag characters and private-use characters: all of them are copied verbatim
+by every writer (`jsonEscape`, `xmlEscape`, `htmlEscape` touch ASCII bytes only; `C18_json_roundtrip`
+and the scan theorems hold for ALL byte lists / all printable ones). A writer that quotes names
+with Rust's `{:?}` instead (seeded change C18-4: `\u{301}` is not a JSON escape) differs on exactly
+these characters: streams `report` and `uninames` of harness/c18.
+
 What the theorems do not cover (checked at run time by harness/c18 on whole reports): that the
 writers of cobertura.rs / output.rs / html.rs route every name through these routines and that
 the fixed text around the names is what the templates say (the sinks are compared with the page
@@ -55,6 +77,7 @@ import GrcovModel.Lemmas.EscapeAgree
 import GrcovModel.Props.C18CobBytes
 import GrcovModel.Props.C18JsonBytes
 import GrcovModel.Props.C18Html
+import GrcovModel.Props.C18Links
 namespace Grcov.Props.C18
 open Grcov.Escape
 
@@ -157,6 +180,40 @@ theorem C18_json_scan (s rest : Bytes) :
 (= a record) to the line-delimited ActiveData output. -/
 theorem C18_json_no_control (s : Bytes) : ∀ y ∈ jsonStr s, 32 ≤ y :=
   forall_mem_escapeWith' jsonTab _ jsonTab_ge32 s
+
+/-- Every byte from 0x20 up other than `"` and `\` is copied verbatim – in particular every byte of
+a multi-byte UTF-8 sequence: combining marks, ZERO WIDTH JOINER, variation selectors, format
+characters, private-use and non-characters are NOT escaped by serde_json (and need not be:
+RFC 8259 allows them raw). -/
+theorem C18_json_verbatim (s : Bytes) (h : ∀ b ∈ s, 32 ≤ b ∧ b ≠ 34 ∧ b ≠ 92) : jsonStr s = s := by
+  unfold jsonStr
+  induction s with
+  | nil => rfl
+  | cons b s ih =>
+    have hb := h b (List.mem_cons_self ..)
+    have ht : jsonTab b = none := by
+      unfold jsonTab
+      have h1 : ¬ b = 34 := hb.2.1
+      have h2 : ¬ b = 92 := hb.2.2
+      have h3 : ¬ b = 8 := by omega
+      have h4 : ¬ b = 9 := by omega
+      have h5 : ¬ b = 10 := by omega
+      have h6 : ¬ b = 12 := by omega
+      have h7 : ¬ b = 13 := by omega
+      have h8 : ¬ b < 32 := by omega
+      simp [h1, h2, h3, h4, h5, h6, h7, h8]
+    rw [escapeWith_cons, ht, ih fun x hx => h x (List.mem_cons_of_mem _ hx)]
+    rfl
+
+/-- Rust's `{:?}` quoting is not JSON quoting: for `e` + U+0301 (COMBINING ACUTE ACCENT) `{:?}` prints
+`e\u{301}`, which no JSON reader accepts (`\u` must be followed by four hex digits); serde_json
+writes the three bytes `65 CC 81` as they are, and they are read back as they are. (Seeded change
+C18-4: `output_covdir` streaming its names with `{:?}`.) -/
+theorem C18_json_debug_quoting_rejected :
+    jsonUnescape [101, 92, 117, 123, 51, 48, 49, 125] = none ∧
+    jsonStr [101, 204, 129] = [101, 204, 129] ∧
+    jsonUnescape (jsonStr [101, 204, 129]) = some [101, 204, 129] := by
+  decide
 
 /-! ### HTML pages (Tera auto-escape) -/
 
